@@ -21,7 +21,7 @@ func init() {
 		ID:    "C05",
 		Level: "exploration",
 		Rule: "batches of type-1/type-2 requests handed to the generic batch issuer after crossing the wire (client Marshal -> BatchedTokenRequest.Unmarshal): every sequence of length 1..3 (quick) / 1..4 (thorough) over 8 request kinds " +
-			"{type1 key A, type1 key A', type1 unknown key id, type1 malformed element (A), type1 malformed element (A'), type2 key B, type2 unknown key id, type2 malformed element} under 3 issuer configurations ({A}, {B}, {A,A',B}), plus seeded sequences of length 5..40. " +
+			"{type1 key A, type1 key A', type1 unknown key id, type1 malformed element (A), type1 malformed element (A'), type2 key B, type2 unknown key id, type2 malformed element} under 5 issuer configurations ({A}, {B}, {A,A',B}, and two with an always-refusing issuer of the same type and truncated key id registered before / after the real one), plus seeded sequences of length 5..40. " +
 			"Oracle = executable model: entry i present iff some configured issuer has the request's type and last key-id byte and its own Evaluate of that request succeeds; the output decodes, has exactly n entries in order, present entries finalize under state i to a token valid under that issuer's key (circl FullEvaluate / rsa.VerifyPSS), absent ones are empty; the succeeding requests alone give an all-present batch. " +
 			"distinct_nontrivial = distinct (configuration, kind sequence) batches containing at least one failing and one succeeding request",
 		Floors:      []string{"batches_checked", "entries_present_valid", "entries_absent", "mixed_batches", "all_failing_batches", "all_succeeding_batches", "isolation_rechecked"},
@@ -55,6 +55,19 @@ type c05World struct {
 	configs     [][]batched.Issuer
 	cfgNames    []string
 }
+
+// refusingIssuer answers for a type and key id but refuses every request
+// (an issuer that is out of capacity, or whose key shares the truncated id).
+type refusingIssuer struct {
+	typ   uint16
+	keyID []byte
+}
+
+func (i refusingIssuer) Evaluate(req tokens.TokenRequest) ([]byte, error) {
+	return nil, fmt.Errorf("refused")
+}
+func (i refusingIssuer) TokenKeyID() []byte { return i.keyID }
+func (i refusingIssuer) Type() uint16       { return i.typ }
 
 type c05Req struct {
 	kind     c05Kind
@@ -103,8 +116,11 @@ func (w *c05World) setup() {
 		{batchIssuer1{w.issA}},
 		{batchIssuer2{w.issB}},
 		{batchIssuer1{w.issA}, batchIssuer1{w.issAp}, batchIssuer2{w.issB}},
+		// a refusing issuer with the same type and truncated key id in front of / behind the real one
+		{refusingIssuer{1, w.issA.TokenKeyID()}, batchIssuer1{w.issA}, refusingIssuer{2, w.issB.TokenKeyID()}, batchIssuer2{w.issB}},
+		{batchIssuer1{w.issA}, refusingIssuer{1, w.issA.TokenKeyID()}, batchIssuer2{w.issB}, refusingIssuer{2, w.issB.TokenKeyID()}, refusingIssuer{1, w.issAp.TokenKeyID()}},
 	}
-	w.cfgNames = []string{"{A}", "{B}", "{A,A',B}"}
+	w.cfgNames = []string{"{A}", "{B}", "{A,A',B}", "{refuse(A),A,refuse(B),B}", "{A,refuse(A),B,refuse(B),refuse(A')}"}
 }
 
 func (w *c05World) mkReq(kind c05Kind, r *core.Rand) *c05Req {
@@ -365,7 +381,7 @@ func runC05(c *core.Ctx) {
 			}
 		}
 	}
-	c.Exhaustive(fmt.Sprintf("all request-kind sequences of length 1..%d over 8 kinds under 3 issuer configurations", maxLen))
+	c.Exhaustive(fmt.Sprintf("all request-kind sequences of length 1..%d over 8 kinds under 5 issuer configurations", maxLen))
 	n := c.Pick(300, 5000)
 	for i := 0; i < n; i++ {
 		if !c.Next() {
@@ -380,9 +396,9 @@ func runC05(c *core.Ctx) {
 		for j := range kinds {
 			kinds[j] = c05Kind(r.IntN(int(c05NKinds)))
 		}
-		w.runBatch(i%3, kinds, r, i%4 == 0)
+		w.runBatch(i%len(w.configs), kinds, r, i%4 == 0)
 		if i < 2 {
-			c.Sample("seeded batch", map[string]any{"configuration": w.cfgNames[i%3], "kinds": kindNames(kinds)})
+			c.Sample("seeded batch", map[string]any{"configuration": w.cfgNames[i%len(w.configs)], "kinds": kindNames(kinds)})
 		}
 	}
 }
